@@ -57,8 +57,9 @@ MAX_REFUSED_FRACTION = 0.05
 
 ALPHAS = (0.0, 0.3, 0.5, 1.0)
 NAMED = {"MCA": (1.0, 1.0), "CCA": (0.0, 0.0), "RDA": (0.0, 1.0)}
-PAIRS_Q = [(9, 4, 3), (6, 4, 6), (5, 6, 4)]
-PAIRS_T = [(9, 4, 3), (6, 4, 6), (5, 6, 4), (12, 6, 4)]
+PAIRS_Q = [(9, 4, 3), (6, 4, 6), (5, 6, 4), (13, 4, 3)]
+PAIRS_T = [(9, 4, 3), (6, 4, 6), (5, 6, 4), (12, 6, 4), (13, 4, 3)]
+PRIME_PAIR = (13, 4, 3)  # 13 samples: an odd prime length (no FFT fast path, no Nyquist bin) - explored for the Hilbert family only
 # sample coordinate labels of the Y field relative to X's: fit pairs samples by POSITION (lagged analysis X(t) vs Y(t+lag),
 # shifted dates), so nothing the property speaks of may depend on them
 LABELS = ("same", "disjoint", "overlap", "reversed")
@@ -177,6 +178,8 @@ def cases(tier, seed):
         for spec in specs:
             for (prefix, cplx, padding) in families:
                 if padding == "exp" and ((tier == "quick" and (n, p1, p2) != (9, 4, 3)) or spec != "geometric"):
+                    continue
+                if (n, p1, p2) == PRIME_PAIR and (prefix != "Hilbert" or spec != "geometric"):
                     continue
                 kinds = [("CPCCA", [ax, ay]) for ax in ALPHAS for ay in ALPHAS] + [(k, list(a)) for k, a in NAMED.items()]
                 for kind, alpha in kinds:
